@@ -118,6 +118,9 @@ pub fn install_panic_hook() {
         } else {
             "non-string panic".to_string()
         };
+        if std::env::var("FLUTE_SIM_BACKTRACE").is_ok() {
+            eprintln!("panic at {}: {}\n{}", loc, msg, std::backtrace::Backtrace::force_capture());
+        }
         LAST_PANIC.with(|p| *p.borrow_mut() = Some((loc, msg)));
     }));
 }
